@@ -202,6 +202,7 @@ func runC06(c *Ctx) {
 	c06AbortableGroup(c)
 	transferRelRule(c, "R13")
 	adapterBegunRule(c, "R7")
+	collectorLeavesOnlyWhenNothingIsOwed(c, "R2")
 }
 
 // ---- who may decrement / increment the counter ------------------------------------------
